@@ -83,4 +83,75 @@ theorem feng2x2x2x2_local (a b : ℕ) (ha : a < 6) (hb : b < 6) :
     | (simp only [i2, i4, h34]; norm_num)
 
 
+/-! ### Min4x4: entries in `ℤ[√2]` -/
+
+/-- the real number `a + b√2` -/
+noncomputable def Z2.val (x : Z2) : ℝ := (x.a : ℝ) + (x.b : ℝ) * Real.sqrt 2
+
+theorem Z2.val_add (x y : Z2) : (x + y).val = x.val + y.val := by
+  show (((x.a + y.a : ℤ) : ℝ)) + ((x.b + y.b : ℤ) : ℝ) * Real.sqrt 2 = _
+  unfold Z2.val; push_cast; ring
+
+theorem Z2.val_mul (x y : Z2) : (x * y).val = x.val * y.val := by
+  show (((x.a * y.a + 2 * x.b * y.b : ℤ) : ℝ)) + ((x.a * y.b + x.b * y.a : ℤ) : ℝ) * Real.sqrt 2 = _
+  unfold Z2.val; push_cast
+  have h := Real.mul_self_sqrt (show (0 : ℝ) ≤ 2 by norm_num)
+  linear_combination (-(x.b : ℝ) * (y.b : ℝ)) * h
+
+theorem Z2.val_zero : (0 : Z2).val = 0 := by
+  show ((0 : ℤ) : ℝ) + ((0 : ℤ) : ℝ) * Real.sqrt 2 = 0; simp
+
+/-- local vector `a` of a `ℤ[√2]` table: `entries / √normSq` -/
+noncomputable def zrowVec (rows : List Z2Row) (a t : ℕ) : ℝ :=
+  ((rows.getD a ⟨z 0, []⟩).entries.getD t 0).val / Real.sqrt ((rows.getD a ⟨z 0, []⟩).normSq.val)
+
+/-- **soundness of the `ℤ[√2]` arithmetic**: the real dot product of two 4-entry rows is the value of the exact dot product
+divided by the two norms -/
+theorem zrow_dot (rows : List Z2Row) (a b : ℕ) (e0 e1 e2 e3 f0 f1 f2 f3 : Z2)
+    (ha : (rows.getD a ⟨z 0, []⟩).entries = [e0, e1, e2, e3]) (hb : (rows.getD b ⟨z 0, []⟩).entries = [f0, f1, f2, f3]) :
+    rdot 4 (zrowVec rows a) (zrowVec rows b)
+      = (dotList (rows.getD a ⟨z 0, []⟩).entries (rows.getD b ⟨z 0, []⟩).entries).val
+        / (Real.sqrt ((rows.getD a ⟨z 0, []⟩).normSq.val) * Real.sqrt ((rows.getD b ⟨z 0, []⟩).normSq.val)) := by
+  unfold rdot zrowVec
+  rw [ha, hb]
+  simp only [Finset.sum_range_succ, Finset.sum_range_zero, dotList, List.zip_cons_cons, List.zip_nil_right, List.foldl_cons, List.foldl_nil,
+    Z2.val_add, Z2.val_mul, Z2.val_zero, List.getD_cons_zero, List.getD_cons_succ]
+  ring
+
+theorem min4x4_shape (a : ℕ) (ha : a < 8) :
+    (∃ e0 e1 e2 e3, (min4x4A.getD a ⟨z 0, []⟩).entries = [e0, e1, e2, e3]) ∧
+    (∃ e0 e1 e2 e3, (min4x4B.getD a ⟨z 0, []⟩).entries = [e0, e1, e2, e3]) := by
+  interval_cases a <;> exact ⟨⟨_, _, _, _, rfl⟩, ⟨_, _, _, _, rfl⟩⟩
+
+theorem min4x4_norms : ∀ a < 8,
+    dotList (min4x4A.getD a ⟨z 0, []⟩).entries (min4x4A.getD a ⟨z 0, []⟩).entries = (min4x4A.getD a ⟨z 0, []⟩).normSq ∧
+    dotList (min4x4B.getD a ⟨z 0, []⟩).entries (min4x4B.getD a ⟨z 0, []⟩).entries = (min4x4B.getD a ⟨z 0, []⟩).normSq := by
+  decide +kernel
+
+theorem min4x4_orth : ∀ a < 8, ∀ b < 8, a ≠ b →
+    dotList (min4x4A.getD a ⟨z 0, []⟩).entries (min4x4A.getD b ⟨z 0, []⟩).entries = 0 ∨
+    dotList (min4x4B.getD a ⟨z 0, []⟩).entries (min4x4B.getD b ⟨z 0, []⟩).entries = 0 := by
+  decide +kernel
+
+theorem min4x4_pos (a : ℕ) (ha : a < 8) :
+    0 < (min4x4A.getD a ⟨z 0, []⟩).normSq.val ∧ 0 < (min4x4B.getD a ⟨z 0, []⟩).normSq.val := by
+  have h2 := Real.mul_self_sqrt (show (0 : ℝ) ≤ 2 by norm_num)
+  have h0 := Real.sqrt_nonneg 2
+  interval_cases a <;> simp [min4x4A, min4x4B, Z2.val, z] <;> nlinarith
+
+theorem min4x4_local (a b : ℕ) (ha : a < 8) (hb : b < 8) :
+    rdot 4 (zrowVec min4x4A a) (zrowVec min4x4A b) * rdot 4 (zrowVec min4x4B a) (zrowVec min4x4B b) = if a = b then 1 else 0 := by
+  obtain ⟨⟨e0, e1, e2, e3, hAa⟩, ⟨g0, g1, g2, g3, hBa⟩⟩ := min4x4_shape a ha
+  obtain ⟨⟨f0, f1, f2, f3, hAb⟩, ⟨k0, k1, k2, k3, hBb⟩⟩ := min4x4_shape b hb
+  rw [zrow_dot min4x4A a b _ _ _ _ _ _ _ _ hAa hAb, zrow_dot min4x4B a b _ _ _ _ _ _ _ _ hBa hBb]
+  by_cases hab : a = b
+  · subst hab
+    rw [if_pos rfl, (min4x4_norms a ha).1, (min4x4_norms a ha).2]
+    obtain ⟨pA, pB⟩ := min4x4_pos a ha
+    rw [Real.mul_self_sqrt pA.le, Real.mul_self_sqrt pB.le, div_self pA.ne', div_self pB.ne', mul_one]
+  · rw [if_neg hab]
+    rcases min4x4_orth a ha b hb hab with h | h
+    · rw [h, Z2.val_zero, zero_div, zero_mul]
+    · rw [h, Z2.val_zero, zero_div, mul_zero]
+
 end Numqi.Catalogue
